@@ -34,7 +34,7 @@ CLAIMED = {
     'C14': ('H-ORDER', 'Failure-free evaluation explored under every interleaving / cleanup delay and under several declaration orders of nodes and edges; for every pair of completed paths with different outcome z3 decides whether one input (history, present set, outputs, comparison relation) admits both.', '7.14'),
     'C15': ('H-EVAL+H-ORDER', 'The C03/C04/C06/C07/C11/C16 oracles and the C14 pairwise check under S-reld (S-rel and S-prod added in thorough; the production-convention universes of H-HIST always): the comparison is an uninterpreted equivalence relation that may depend on whose output is compared and for which consumer (kernel of uninterpreted functions), so every obligation is decided for all comparison functions at once; only violations that do not also occur under plain string inequality are attributed to C15.', '7.15'),
     'C18': ('H-HIST+H-EVAL', 'Universes with symbolic stale records (absent jobs, removed dependencies, superseded multi-output ids incl. plain->multi and multi->plain, production input-name convention): per record of the input history a validity query decides kept-unchanged / dropped on every completed path (faults and aborts included); every returned key is in the input history or describes the current graph.', '7.18'),
-    'C20': ('H-EVAL', 'At every distinct reachable engine state of the exploration every illegal call on every job (start, success, failure, cleanup acknowledgement, second startup) is executed on a copy: result must be APIError and the complete engine state (every field, incl. the signal queue and generation counter; the query results are functions of it) must be exactly unchanged. Which finish reports are illegal is decided by the driver's own record of delivered events, not by the engine's reports. Complete enumerations (<= 3 jobs): every distinct state; H-BUILT universes: every 8th.', '7.20'),
+    'C20': ('H-EVAL', 'At every distinct reachable engine state of the exploration every illegal call on every job (start, success, failure, cleanup acknowledgement, second startup) is executed on a copy: result must be APIError and the complete engine state (every field, incl. the signal queue and generation counter; the query results are functions of it) must be exactly unchanged. Which finish reports are illegal is decided by the record the driver keeps of the events it delivered, not by what the engine reports. Complete enumerations (<= 3 jobs): every distinct state; H-BUILT universes: every 8th.', '7.20'),
     'C17': ('H-EVAL', 'Report-consistency invariants at every quiescent state of every path (ready/running/failed/upstream-failed/cleanup/finished vs driver events and per-job states), and a write barrier on NodeInfo.state inside every call: each MIR assignment to a JobState place is checked for kind change, finished -> unfinished and success -> failed/upstream-failed/aborted at the instruction where it happens.', '7.17, 14'),
 }
 
